@@ -158,7 +158,12 @@ def run_dist(r, case, g):
                     r.count("normalisation_checks")
                     r.count("integrals_undecided")
                 else:
-                    _judge_int(r, label, t160, abs(t160 - t112), 5e-3, 2e-2, shape, det)
+                    # the midpoint rule on multi-scale mixtures does not converge monotonically (1.0098 -> 0.9926 -> 0.9938 ->
+                    # 0.9979 -> 1.0004 at 64 ... 300 nodes per axis was observed on a correctly normalised density): the error
+                    # estimate takes the coarser pair into account
+                    # ... and the verdict tolerance is 2e-2: three resolutions agreeing to 5e-4 on 0.9921 were observed for a
+                    # density whose masks are strictly autoregressive (hence normalised); leaking masks lose 7 % and more
+                    _judge_int(r, label, t160, max(abs(t160 - t112), 0.5 * abs(t112 - t64)), 2e-2, 2e-2, shape, det)
             else:
                 _importance(r, d, lp, label, shape, P, me, c, g, det)
         except Exception as e:
@@ -250,13 +255,18 @@ def run_dist(r, case, g):
                     r.count("ks_undecided")      # under-resolved (normalisation itself is judged above)
                 else:
                     for k in range(3):
-                        xk, wk, m = res[112][1][k]
-                        cdf = torch.cumsum(m * wk, 0) - 0.5 * m * wk
+                        dk = {}
+                        for GN in (80, 112):
+                            xk, wk, m = res[GN][1][k]
+                            cdf = torch.cumsum(m * wk, 0) - 0.5 * m * wk
+                            tot_ = (m * wk).sum()
+                            dk[GN] = q.ks_distance(s[:, k], torch.cat([xk, xk[-1:] + 1.0]), torch.cat([cdf, tot_[None]]))
                         r.ev()
                         r.count("sampling_checks")
-                        tot_ = (m * wk).sum()
-                        Dks = q.ks_distance(s[:, k], torch.cat([xk, xk[-1:] + 1.0]), torch.cat([cdf, tot_[None]]))
-                        crit = q.ks_crit(NS) + 3e-3 + 3 * abs(tot_hi - 1)     # grid-marginal resolution
+                        Dks = dk[112]
+                        # grid-marginal resolution: a distance that is an artefact of the grid shrinks with the resolution
+                        # (0.035 -> 0.021 -> 0.011 at 80 / 112 / 160 nodes was observed), a real mismatch does not
+                        crit = q.ks_crit(NS) + 3e-3 + 3 * abs(tot_hi - 1) + 2 * abs(dk[80] - dk[112])
                         r.worst("ks/crit", Dks / crit)
                         if Dks > crit:
                             r.viol("samples_not_from_density", "%s samples do not follow its own density" % label, ks=Dks,
